@@ -1,6 +1,8 @@
 package keeper
 
 import (
+	"errors"
+
 	sdk "github.com/cosmos/cosmos-sdk/types"
 	authtypes "github.com/cosmos/cosmos-sdk/x/auth/types"
 	ccvconsumertypes "github.com/cosmos/interchain-security/v6/x/ccv/consumer/types"
@@ -24,7 +26,8 @@ func (k Keeper) ClaimAndVestProviderStakingRewards(ctx sdk.Context) error {
 	if !edenAmount.IsZero() {
 		err = k.commKeeper.ProcessTokenVesting(ctx, ptypes.Eden, edenAmount, providerRewardAddress)
 		if err != nil {
-			if err == commitmentmoduletypes.ErrExceedMaxVestings {
+			// ProcessTokenVesting returns the error wrapped: a full vesting list only postpones the vesting to a later epoch
+			if errors.Is(err, commitmentmoduletypes.ErrExceedMaxVestings) {
 				return nil
 			}
 			return err
